@@ -58,7 +58,12 @@ pub fn codes_for_len(n: usize) -> usize {
 /// All schedules with at most `deviations` deviating iteration points for a run whose identity
 /// trace is `trace` (each deviating point ranges over all its permutation codes, capped at
 /// `max_codes` per point), plus the uniform schedules (every point permuted by code k, k = 1..uniform).
-pub fn schedules(trace: &[usize], deviations: usize, max_codes: usize, uniform: usize) -> Vec<Sched> {
+pub fn schedules(
+    trace: &[usize],
+    deviations: usize,
+    max_codes: usize,
+    uniform: usize,
+) -> Vec<Sched> {
     let mut out = vec![Sched::identity()];
     if !HOOKS {
         return out;
